@@ -216,7 +216,7 @@ func runChild(bin, dir, runRe, outDir string, id string, batch, nbatch int, seed
 	if race {
 		e = append(e, "GORACE=halt_on_error=0 log_path="+filepath.Join(outDir, fmt.Sprintf("race-%d", batch)))
 	}
-	if os.Getenv("VF_KEEP_SRVLOG") != "" {
+	if os.Getenv("VF_KEEP_SRVLOG") != "" || id == "C14" {
 		e = append(e, "VF_SRVLOG="+filepath.Join(outDir, fmt.Sprintf("srv-%d.log", batch)))
 	}
 	cmd.Env = e
